@@ -135,6 +135,7 @@ func newEngine(l *Loaded) *Engine {
 		funcsSeen:   map[string]int{},
 		stubTypes:   map[string]types.Type{},
 		asmFuncs:    map[string]stdHandler{},
+		harnCache:   map[*ssa.Function]bool{},
 	}
 	return e
 }
@@ -372,9 +373,7 @@ func solveAll(e *Engine, obs []*Obligation, tier int, timeout time.Duration) {
 				lab := fmt.Sprintf("bv%d lowered from int", w)
 				as = append(as, attempt{cfg: z3new, query: q2, label: lab, satExact: true}, attempt{cfg: cvc5c, query: q2, label: lab, satExact: true})
 			}
-			if hasBV {
-				e.addLifted(&as, ob, msyms, tier)
-			}
+			e.addLifted(&as, ob, msyms, tier)
 			if !hasBV || len(as) == 0 {
 				for _, c := range solversFor(th, tier) {
 					as = append(as, attempt{cfg: c, query: direct, label: th, satExact: true})
